@@ -4,7 +4,7 @@
    the implementation's traces; m_* = the model of pstoremem; d_* = the model of pstoreds. *)
 From Coq Require Import List ZArith Bool.
 From Verif Require Import lib.Wire gen.Consts_c09 c09.Abs c09.Model_mem c09.Model_ds c09.Spec c09.Proofs_mem c09.Proofs_ds c09.Proofs
-  c09.Proofs_dsr_w c09.Proofs_dsr.
+  c09.Proofs_dsr_w c09.Proofs_dsr c09.Model_cap c09.Proofs_cap.
 Import ListNotations.
 Local Open Scope Z_scope.
 
@@ -233,3 +233,69 @@ Example c09_monitor_rejects_bad_traces :
   holds [(OConsume 1 5 1 (s_ 120) false [(1, 0)], OVal 1); (OConsume 1 4 2 (s_ 120) false [(1, 0)], OVal 1)] = false /\
   holds [(OAdd 1 (s_ 120) [(1, 0)], ONone); (OAdvance (s_ 119), ONone); (OAddrs 1, OList [1])] = true.
 Proof. exact monitor_rejects_l. Qed.
+
+(* ---- per-peer caps that BIND: "the most recent assignment is kept" ---------------------- *)
+(* The weak monitor's clause (Spec.last_mark / the w_last test in w_step): after AddAddrs /
+   SetAddrs with a positive TTL whose batch names at most [cap] distinct addresses (any batch if
+   the TTL class is connected or no per-peer cap binds) the address named LAST is returned by
+   Addrs.  Proved of the transcription of both books' capped loops, for EVERY prior content and
+   EVERY batch (duplicates, entries of the connected class, eviction victims named again, ...).
+
+   pstoreds, the loop of setAddrs (unconnectedCount once per call, addrsMap, eviction among the
+   entries present before the call): the address named last is in pr.Addrs ++ entries with at
+   least the new expiry. *)
+Theorem c09_cap_ds_loop_keeps_last_named : forall mode ttl nx cap pre a orig,
+  cap <= 0 \/ conn ttl = true \/ distinct_count (pre ++ [a]) <= cap ->
+  let '(cur, fresh, _) := cap_loop mode ttl nx cap (pre ++ [a]) orig in
+  exists e, In e (cur ++ fresh) /\ da e = a /\ nx <= dexp e.
+Proof. exact cap_loop_keeps_last. Qed.
+Print Assumptions c09_cap_ds_loop_keeps_last_named.
+
+(* pstoreds, the whole book in ANY state (any stored records, any cache content, cache on or
+   off): the write followed by Addrs returns the address named last. *)
+Theorem c09_cap_ds_last_named_is_returned : forall cap s p pre a ttl mode,
+  unix (d_now s) < unix (d_now s + ttl) ->
+  cap <= 0 \/ conn ttl = true \/ distinct_count (pre ++ [a]) <= cap ->
+  In a (snd (d_addrs (dc_setaddrs cap s p (pre ++ [a]) ttl mode) p)).
+Proof. exact dc_setaddrs_then_addrs. Qed.
+Print Assumptions c09_cap_ds_last_named_is_returned.
+
+(* pstoremem, the capped loop body of addAddrsUnlocked / SetAddrs: whichever victim is picked
+   among the entries (Go map order: [choose] is arbitrary, it only has to find one when an
+   unconnected entry exists), for every cap and every batch size. *)
+Theorem c09_cap_mem_loop_keeps_last_named : forall (choose : list dent -> option Z) set ttl exp cap pre a l,
+  (forall l, 0 < count_unconn l -> choose l <> None) ->
+  exists e, In e (mc_loop choose set ttl exp cap (pre ++ [a]) l) /\ da e = a /\ exp <= dexp e.
+Proof. exact mc_loop_keeps_last. Qed.
+Print Assumptions c09_cap_mem_loop_keeps_last_named.
+
+(* the capped pstoreds model is a conservative extension: with the cap off it IS the model of
+   Model_ds.v, trace for trace, from every state — so every pstoreds theorem above is also a
+   theorem about [dc_trace cap] for cap <= 0, and the replay of binding-cap histories on
+   [dc_step] exercises the same transcription the refinement theorems are about. *)
+Theorem c09_cap_model_extends_uncapped : forall cap, cap <= 0 ->
+  forall ops s, dc_trace cap s ops = d_trace s ops.
+Proof. exact dc_trace_cap_off. Qed.
+Print Assumptions c09_cap_model_extends_uncapped.
+
+(* non-vacuity and necessity.  (1) the history of seeded change C09-m15 (cap 2; a1 1h, a2 2h;
+   AddAddrs{a3,a1} 3h): the capped pstoreds model and the pstoremem loop answer {a1,a3}, the
+   weak monitor accepts that and REJECTS the answer {a2,a3} — which is what the loop gives when
+   the evicted entry stays in addrsMap (cap_one_orphan).  (2) the "at most cap distinct
+   addresses" hypothesis is needed for pstoreds: cap 1, empty record, AddAddrs{a1,a2} keeps a1
+   and refuses a2 (eviction only among entries present before the call), and the monitor does
+   not demand a2 there. *)
+Example c09_cap_clause_not_vacuous :
+  let h := [OAdd 1 (s_ 3600) [(1, 0)]; OAdd 1 (s_ 7200) [(2, 0)]; OAdd 1 (s_ 10800) [(3, 0); (1, 0)]; OAddrs 1] in
+  let o := [mkD 1 (s_ 3600) 3600; mkD 2 (s_ 7200) 7200] in
+  map snd (dc_trace 2 (d_init false 0) h) = [ONone; ONone; ONone; OList [3; 1]] /\
+  map snd (dc_trace 2 (d_init true 0) h) = [ONone; ONone; ONone; OList [3; 1]] /\
+  holds_weak 2 0 0 (dc_trace 2 (d_init false 0) h) = true /\
+  map da (mc_loop choose_first false (s_ 10800) 10800 2 [3; 1] o) = [3; 1] /\
+  fst (fold_left (cap_one_orphan TExtend (s_ 10800) 10800 2) [3; 1] ((o, [], 2), [])) =
+    ([mkD 2 (s_ 7200) 7200], [mkD 3 (s_ 10800) 10800], 2) /\
+  holds_weak 2 0 0 [(OAdd 1 (s_ 3600) [(1, 0)], ONone); (OAdd 1 (s_ 7200) [(2, 0)], ONone);
+                    (OAdd 1 (s_ 10800) [(3, 0); (1, 0)], ONone); (OAddrs 1, OList [2; 3])] = false /\
+  map snd (dc_trace 1 (d_init false 0) [OAdd 1 (s_ 120) [(1, 0); (2, 0)]; OAddrs 1]) = [ONone; OList [1]] /\
+  holds_weak 1 0 0 (dc_trace 1 (d_init false 0) [OAdd 1 (s_ 120) [(1, 0); (2, 0)]; OAddrs 1]) = true.
+Proof. exact cap_clause_not_vacuous_l. Qed.
